@@ -1435,3 +1435,327 @@ Lemma resume_count_tags_refuted :
     skipn (count_pre (render cs1)) (poll_model (render cs1 ++ render cs2)) = [] /\
     payloads_of cs2 <> [].
 Proof. exists resume_witness_1, resume_witness_2. repeat split; try reflexivity. discriminate. Qed.
+
+(* ==== value-level round trip: loads (dumps v) = Some v ==================================== *)
+
+(* the two inner loops of parse_value, with the element parser as a parameter *)
+Definition parse_items (pv : list Z -> option (jvalue * list Z)) :=
+  fix items (n : nat) (t : list Z) : option (list jvalue * list Z) :=
+    match n with
+    | O => None
+    | S n' =>
+        match pv t with
+        | Some (x, t') =>
+            match strip_prefix [93] t' with
+            | Some rest => Some ([x], rest)
+            | None =>
+                match strip_prefix SEP_ITEM t' with
+                | Some rest =>
+                    match items n' rest with Some (xs, rest') => Some (x :: xs, rest') | None => None end
+                | None => None
+                end
+            end
+        | None => None
+        end
+    end.
+
+Definition parse_pairs (pv : list Z -> option (jvalue * list Z)) :=
+  fix pairs (n : nat) (t : list Z) : option (list (list Z * jvalue) * list Z) :=
+    match n with
+    | O => None
+    | S n' =>
+        match strip_prefix [34] t with
+        | Some t1 =>
+            match parse_string_body (length t1 + 1) t1 with
+            | Some (k, t1') =>
+                match strip_prefix SEP_KEY t1' with
+                | Some t2 =>
+                    match pv t2 with
+                    | Some (x, t') =>
+                        match strip_prefix [RBR] t' with
+                        | Some rest => Some ([(k, x)], rest)
+                        | None =>
+                            match strip_prefix SEP_ITEM t' with
+                            | Some rest =>
+                                match pairs n' rest with
+                                | Some (xs, rest') => Some ((k, x) :: xs, rest')
+                                | None => None
+                                end
+                            | None => None
+                            end
+                        end
+                    | None => None
+                    end
+                | None => None
+                end
+            | None => None
+            end
+        | None => None
+        end
+    end.
+
+Lemma pv_str f r :
+  parse_value (S f) (34 :: r) =
+  match parse_string_body (length r + 1) r with Some (s, rest) => Some (JStr s, rest) | None => None end.
+Proof. reflexivity. Qed.
+
+Lemma pv_list f r :
+  parse_value (S f) (91 :: r) =
+  match strip_prefix [93] r with
+  | Some rest => Some (JList [], rest)
+  | None => match parse_items (parse_value f) (length r + 1) r with
+            | Some (xs, rest) => Some (JList xs, rest)
+            | None => None
+            end
+  end.
+Proof. reflexivity. Qed.
+
+Lemma pv_dict f r :
+  parse_value (S f) (LBR :: r) =
+  match strip_prefix [RBR] r with
+  | Some rest => Some (JDict [], rest)
+  | None => match parse_pairs (parse_value f) (length r + 1) r with
+            | Some (xs, rest) => Some (JDict xs, rest)
+            | None => None
+            end
+  end.
+Proof. reflexivity. Qed.
+
+Lemma pv_num f c r :
+  numstart c = true ->
+  parse_value (S f) (c :: r) =
+  let '(tok, rest) := span_num (c :: r) in match tok with [] => None | _ => Some (JNum tok, rest) end.
+Proof.
+  intro H. unfold numstart in H. cbn [mem_ch] in H. cbn [parse_value].
+  replace (Z.eqb c 34) with false by lia. replace (Z.eqb c 91) with false by lia.
+  replace (Z.eqb c LBR) with false by (unfold LBR; lia). replace (Z.eqb c 110) with false by lia.
+  replace (Z.eqb c 116) with false by lia. replace (Z.eqb c 102) with false by lia. reflexivity.
+Qed.
+
+(* what may follow a value: nothing, or a character that cannot continue a number token *)
+Definition follow_ok (rest : list Z) : bool :=
+  match rest with [] => true | c :: _ => negb (numchar c) end.
+
+Lemma span_num_app a rest : forallb numchar a = true -> follow_ok rest = true -> span_num (a ++ rest) = (a, rest).
+Proof.
+  induction a as [|c a IH]; intros Ha Hr.
+  - cbn [app]. destruct rest as [|d rest]; [reflexivity|]. cbn [follow_ok] in Hr.
+    apply negb_true_iff in Hr. cbn [span_num]. rewrite Hr. reflexivity.
+  - cbn [forallb] in Ha. apply andb_true_iff in Ha. destruct Ha as [Hc Ha].
+    rewrite <- app_comm_cons. cbn [span_num]. rewrite Hc, (IH Ha Hr). reflexivity.
+Qed.
+
+(* strings and keys without an adjacent surrogate pair, at every depth *)
+Fixpoint jnov (v : jvalue) : bool :=
+  match v with
+  | JStr s => no_surrogate_pair s
+  | JList l => forallb jnov l
+  | JDict kvs => forallb (fun kv => no_surrogate_pair (fst kv) && jnov (snd kv)) kvs
+  | _ => true
+  end.
+
+(* the first character of a serialisation is never "]" or "}" *)
+Lemma dumps_head v : jwf v = true -> exists c t, dumps v = c :: t /\ Z.eqb 93 c = false /\ Z.eqb RBR c = false.
+Proof.
+  destruct v as [| [|] | tok | s | l | kvs]; intro H.
+  - eexists _, _. repeat split; reflexivity.
+  - eexists _, _. repeat split; reflexivity.
+  - eexists _, _. repeat split; reflexivity.
+  - cbn [jwf] in H. unfold numtok_ok in H. destruct tok as [|c t]; [discriminate|].
+    apply andb_true_iff in H. destruct H as [H _]. unfold numstart in H. cbn [mem_ch] in H.
+    exists c, t. cbn [dumps]. unfold RBR. repeat split; lia.
+  - eexists _, _. repeat split; reflexivity.
+  - rewrite dumps_list. eexists _, _. repeat split; reflexivity.
+  - rewrite dumps_dict. eexists _, _. repeat split; reflexivity.
+Qed.
+
+Lemma parse_items_ok pv rest : forall l, l <> [] ->
+  (forall x, In x l -> forall rest', follow_ok rest' = true -> pv (dumps x ++ rest') = Some (x, rest')) ->
+  forall n, (length l <= n)%nat ->
+  parse_items pv n (dumps_items l ++ 93 :: rest) = Some (l, rest).
+Proof.
+  induction l as [|x l IH]; intros Hne Hpv n Hn; [congruence|].
+  destruct n as [|n']; [cbn [length] in Hn; lia|].
+  destruct l as [|y l'].
+  - cbn [dumps_items parse_items]. rewrite (Hpv x (or_introl eq_refl) (93 :: rest) eq_refl). reflexivity.
+  - change (dumps_items (x :: y :: l')) with (dumps x ++ SEP_ITEM ++ dumps_items (y :: l')).
+    rewrite <- !app_assoc. cbn [parse_items].
+    rewrite (Hpv x (or_introl eq_refl) (SEP_ITEM ++ dumps_items (y :: l') ++ 93 :: rest) eq_refl).
+    change (strip_prefix [93] (SEP_ITEM ++ dumps_items (y :: l') ++ 93 :: rest)) with (@None (list Z)).
+    rewrite strip_prefix_exact.
+    fold (parse_items pv). rewrite IH; [reflexivity | discriminate | | cbn [length] in *; lia].
+    intros z Hz. apply Hpv. right. exact Hz.
+Qed.
+
+Lemma parse_pairs_ok pv rest : forall kvs, kvs <> [] ->
+  (forall k x, In (k, x) kvs ->
+     forallb codepoint_ok k = true /\ no_surrogate_pair k = true /\
+     forall rest', follow_ok rest' = true -> pv (dumps x ++ rest') = Some (x, rest')) ->
+  forall n, (length kvs <= n)%nat ->
+  parse_pairs pv n (dumps_pairs kvs ++ RBR :: rest) = Some (kvs, rest).
+Proof.
+  induction kvs as [|[k x] l IH]; intros Hne Hpv n Hn; [congruence|].
+  destruct n as [|n']; [cbn [length] in Hn; lia|].
+  destruct (Hpv k x (or_introl eq_refl)) as [Hk1 [Hk2 Hx]].
+  assert (Hkey : forall tail, parse_string_body (length (body k ++ 34 :: tail) + 1) (body k ++ 34 :: tail) = Some (k, tail)).
+  { intro tail. apply parse_string_roundtrip; [exact Hk1 | exact Hk2 |].
+    rewrite app_length. pose proof (body_length k). lia. }
+  destruct l as [|[j y] l'].
+  - cbn [dumps_pairs]. unfold dump_string. change (flat_map escape_char k) with (body k).
+    rewrite <- !app_assoc. cbn [app parse_pairs]. rewrite strip_prefix_cons, Z.eqb_refl. cbn [strip_prefix].
+    rewrite <- app_assoc. cbn [app]. rewrite Hkey. rewrite strip_prefix_exact.
+    rewrite (Hx (RBR :: rest) eq_refl). rewrite Z.eqb_refl. reflexivity.
+  - change (dumps_pairs ((k, x) :: (j, y) :: l'))
+      with (dump_string k ++ SEP_KEY ++ dumps x ++ SEP_ITEM ++ dumps_pairs ((j, y) :: l')).
+    unfold dump_string at 1. change (flat_map escape_char k) with (body k).
+    rewrite <- !app_assoc. cbn [app parse_pairs]. rewrite strip_prefix_cons, Z.eqb_refl. cbn [strip_prefix].
+    rewrite <- app_assoc. cbn [app]. rewrite Hkey. rewrite strip_prefix_exact.
+    rewrite (Hx (SEP_ITEM ++ dumps_pairs ((j, y) :: l') ++ RBR :: rest) eq_refl).
+    change (strip_prefix [RBR] (SEP_ITEM ++ dumps_pairs ((j, y) :: l') ++ RBR :: rest)) with (@None (list Z)).
+    rewrite strip_prefix_exact.
+    fold (parse_pairs pv). rewrite IH; [reflexivity | discriminate | | cbn [length] in *; lia].
+    intros k' x' Hin. apply Hpv. right. exact Hin.
+Qed.
+
+Lemma dumps_nonempty v : jwf v = true -> (1 <= length (dumps v))%nat.
+Proof. intro H. destruct (dumps_head v H) as [c [t [-> _]]]. cbn [length]. lia. Qed.
+
+Lemma dumps_items_length l : forallb jwf l = true ->
+  (length l <= length (dumps_items l))%nat /\ forall x, In x l -> (length (dumps x) <= length (dumps_items l))%nat.
+Proof.
+  induction l as [|x l IH]; intro H; [split; [reflexivity | intros ? []]|].
+  cbn [forallb] in H. apply andb_true_iff in H. destruct H as [Hx Hl].
+  destruct (IH Hl) as [I1 I2]. pose proof (dumps_nonempty x Hx) as Hn.
+  destruct l as [|y l'].
+  - cbn [dumps_items length]. split; [lia|]. intros z [<- | []]. lia.
+  - change (dumps_items (x :: y :: l')) with (dumps x ++ SEP_ITEM ++ dumps_items (y :: l')).
+    rewrite !app_length. cbn [length] in *. split; [lia|].
+    intros z [<- | Hz]; [lia|]. specialize (I2 z Hz). lia.
+Qed.
+
+Lemma dumps_pairs_length kvs : forallb (fun kv => forallb codepoint_ok (fst kv) && jwf (snd kv)) kvs = true ->
+  (length kvs <= length (dumps_pairs kvs))%nat /\
+  forall k x, In (k, x) kvs -> (length (dumps x) <= length (dumps_pairs kvs))%nat.
+Proof.
+  induction kvs as [|[k x] l IH]; intro H; [split; [reflexivity | intros ? ? []]|].
+  cbn [forallb fst snd] in H. apply andb_true_iff in H. destruct H as [Hx Hl].
+  apply andb_true_iff in Hx. destruct Hx as [_ Hx].
+  destruct (IH Hl) as [I1 I2]. pose proof (dumps_nonempty x Hx) as Hn.
+  destruct l as [|[j y] l'].
+  - cbn [dumps_pairs length]. rewrite !app_length. split; [lia|]. intros k' z [E | []]. injection E as _ <-. lia.
+  - change (dumps_pairs ((k, x) :: (j, y) :: l'))
+      with (dump_string k ++ SEP_KEY ++ dumps x ++ SEP_ITEM ++ dumps_pairs ((j, y) :: l')).
+    rewrite !app_length. cbn [length] in *. split; [lia|].
+    intros k' z [E | Hz]; [injection E as _ <-; lia|]. specialize (I2 k' z Hz). lia.
+Qed.
+
+Theorem parse_value_roundtrip : forall v, jwf v = true -> jnov v = true ->
+  forall rest fuel, follow_ok rest = true -> (length (dumps v) < fuel)%nat ->
+  parse_value fuel (dumps v ++ rest) = Some (v, rest).
+Proof.
+  induction v as [| b | tok | s | l IH | kvs IH] using jvalue_ind2; intros Hw Hn rest fuel Hr Hf;
+    (destruct fuel as [|f]; [lia|]).
+  - reflexivity.
+  - destruct b; reflexivity.
+  - cbn [jwf] in Hw. unfold numtok_ok in Hw. destruct tok as [|c t]; [discriminate|].
+    apply andb_true_iff in Hw. destruct Hw as [Hs Ha]. cbn [dumps]. rewrite <- app_comm_cons.
+    rewrite (pv_num f c _ Hs). rewrite app_comm_cons, (span_num_app (c :: t) rest Ha Hr). reflexivity.
+  - cbn [dumps jwf jnov] in *. unfold dump_string. change (flat_map escape_char s) with (body s).
+    rewrite <- app_comm_cons, <- app_assoc. cbn [app]. rewrite pv_str.
+    rewrite (parse_string_roundtrip s rest _ Hw Hn); [reflexivity|].
+    rewrite app_length. pose proof (body_length s). lia.
+  - rewrite dumps_list in *. rewrite <- app_comm_cons, <- app_assoc. cbn [app]. rewrite pv_list.
+    cbn [jwf jnov] in Hw, Hn. destruct l as [|x l'].
+    + reflexivity.
+    + destruct (dumps_items_length _ Hw) as [L1 L2].
+      assert (Hhd : strip_prefix [93] (dumps_items (x :: l') ++ 93 :: rest) = None).
+      { assert (Hx : jwf x = true) by (cbn [forallb] in Hw; apply andb_true_iff in Hw; tauto).
+        destruct (dumps_head x Hx) as [c [t [E [H93 _]]]].
+        destruct l' as [|y l'']; [cbn [dumps_items]|change (dumps_items (x :: y :: l'')) with (dumps x ++ SEP_ITEM ++ dumps_items (y :: l''))];
+          rewrite E; rewrite <- ?app_comm_cons; cbn [app]; rewrite strip_prefix_cons, H93; reflexivity. }
+      rewrite Hhd. rewrite parse_items_ok; [reflexivity | discriminate | | rewrite app_length; cbn [length] in *; lia].
+      intros z Hz rest' Hr'. rewrite Forall_forall in IH. rewrite forallb_forall in Hw, Hn.
+      apply (IH z Hz (Hw z Hz) (Hn z Hz) rest' f Hr').
+      specialize (L2 z Hz). cbn [length] in Hf. rewrite app_length in Hf. cbn [length] in Hf. lia.
+  - rewrite dumps_dict in *. rewrite <- app_comm_cons, <- app_assoc. cbn [app]. rewrite pv_dict.
+    cbn [jwf jnov] in Hw, Hn. destruct kvs as [|[k x] l'].
+    + reflexivity.
+    + destruct (dumps_pairs_length _ Hw) as [L1 L2].
+      assert (Hhd : strip_prefix [RBR] (dumps_pairs ((k, x) :: l') ++ RBR :: rest) = None).
+      { destruct l' as [|[j y] l'']; [cbn [dumps_pairs]|change (dumps_pairs ((k, x) :: (j, y) :: l''))
+          with (dump_string k ++ SEP_KEY ++ dumps x ++ SEP_ITEM ++ dumps_pairs ((j, y) :: l''))];
+          unfold dump_string; rewrite <- ?app_comm_cons; cbn [app]; reflexivity. }
+      rewrite Hhd. rewrite parse_pairs_ok; [reflexivity | discriminate | | rewrite app_length; cbn [length] in *; lia].
+      intros k' z Hz. rewrite Forall_forall in IH. rewrite forallb_forall in Hw, Hn.
+      specialize (Hw _ Hz). specialize (Hn _ Hz). cbn [fst snd] in Hw, Hn.
+      apply andb_true_iff in Hw. destruct Hw as [Hk1 Hz1]. apply andb_true_iff in Hn. destruct Hn as [Hk2 Hz2].
+      split; [exact Hk1|]. split; [exact Hk2|]. intros rest' Hr'.
+      apply (IH (k', z) Hz Hz1 Hz2 rest' f Hr').
+      specialize (L2 k' z Hz). cbn [length snd] in *. rewrite app_length in Hf. cbn [length] in Hf. lia.
+Qed.
+
+Theorem loads_dumps v : jwf v = true -> jnov v = true -> loads (dumps v) = Some v.
+Proof.
+  intros Hw Hn. unfold loads.
+  pose proof (parse_value_roundtrip v Hw Hn [] (length (dumps v) + 1) eq_refl) as H.
+  rewrite app_nil_r in H. rewrite H; [reflexivity | lia].
+Qed.
+
+(* ---- every report the Reporter accepts arrives unchanged ---------------------------------- *)
+
+Definition kwargs_nov (kw : list (list Z * jvalue)) : bool :=
+  forallb (fun kv => no_surrogate_pair (fst kv) && jnov (snd kv)) kw.
+Definition cevent_good (e : cevent) : bool :=
+  match e with CSay _ => true | CCall ck kw => clock_ok ck && kwargs_ok kw && kwargs_nov kw end.
+
+Lemma report_dict_nov add_time ck kw k : kwargs_nov kw = true -> jnov (report_dict add_time ck kw k) = true.
+Proof.
+  unfold kwargs_nov, report_dict, reserved_fields. intro H. cbn [jnov]. rewrite forallb_app, H. cbn [andb].
+  destruct add_time; [destruct (ck_cost ck)|]; reflexivity.
+Qed.
+
+(* the dictionary the Reporter built for a call, with counter k: the user's entries, unchanged
+   and in order, followed by the reserved fields *)
+Definition built_dict (add_time : bool) (cevs : list cevent) (k : nat) (d : jvalue) : Prop :=
+  exists ck kw, In (CCall ck kw) cevs /\
+    d = JDict (kw ++ reserved_fields add_time ck k) /\
+    existsb is_null (map snd kw) = false /\
+    existsb (starts_with ST_PREFIX) (map fst kw) = false /\
+    ascii_str_sizeof (dumps d) < SIZE_LIMIT.
+
+Lemma Forall2_exists_list {A B C} (R : A -> C -> Prop) (f : B -> option C) :
+  forall l ps, Forall2 (fun a p => exists d, R a d /\ f p = Some d) l ps ->
+  exists ds, Forall2 R l ds /\ map f ps = map Some ds.
+Proof.
+  induction 1 as [|a p l ps [d [Hr Hf]] _ [ds [I1 I2]]].
+  - exists []. split; [constructor | reflexivity].
+  - exists (d :: ds). split; [constructor; assumption|]. cbn [map]. rewrite Hf, I2. reflexivity.
+Qed.
+
+Theorem reports_arrive_unchanged add_time m1 m2 cevs k0 :
+  forallb cevent_good cevs = true ->
+  match run_script m1 m2 k0 (map (to_event add_time) cevs) with
+  | (_, os, cs) =>
+      noise_ok cs = true ->
+      StronglySorted lt (emitted_iters os) /\
+      exists ds, Forall2 (built_dict add_time cevs) (emitted_iters os) ds /\
+                 map loads (retrieve_model (readlines (render cs))) = map Some ds
+  end.
+Proof.
+  intro Hg.
+  assert (Hok : forallb cevent_ok cevs = true).
+  { apply forallb_forall. intros e He. rewrite forallb_forall in Hg. specialize (Hg e He).
+    destruct e as [s|ck kw]; [reflexivity|]. cbn [cevent_good cevent_ok] in *.
+    apply andb_true_iff in Hg. tauto. }
+  pose proof (reporter_concrete add_time m1 m2 cevs k0 Hok) as H.
+  destruct (run_script m1 m2 k0 (map (to_event add_time) cevs)) as [[k' os] cs].
+  destruct H as [_ [_ [Hs [Hf Hr]]]]. intro Hn. split; [exact Hs|].
+  destruct (Hr Hn) as [-> _].
+  apply Forall2_exists_list. eapply Forall2_impl; [|exact Hf].
+  intros k p [ck [kw [Hin [-> [H1 [H2 H3]]]]]].
+  exists (report_dict add_time ck kw k). split.
+  - exists ck, kw. unfold report_dict in *. auto.
+  - rewrite forallb_forall in Hg. specialize (Hg _ Hin). cbn [cevent_good] in Hg.
+    apply andb_true_iff in Hg. destruct Hg as [Hg Hv]. apply andb_true_iff in Hg. destruct Hg as [Hc Hk].
+    apply loads_dumps; [apply report_dict_wf; assumption | apply report_dict_nov; assumption].
+Qed.
